@@ -273,7 +273,22 @@ def run(F, R, tier):
                         if d[0] == "let":
                             txt = expr_text(d[1])
                             c = d[1]
-                if any((y.get("fn") or "").endswith("Ord::cmp") for y in walk(c)) and any(y.get("name") in ("is_lt", "is_gt", "is_le", "is_ge") for y in walk(c) if y.get("k") == "MethodCall"):
+                # the deciding value must *be* an ordering test `a.cmp(b)[.then_with(..)].is_lt()` (possibly
+                # inside `.map(|best| ..).unwrap_or(true)` for the first candidate), not merely contain one
+                def is_ordering_test(e):
+                    e = peel(e)
+                    if e.get("k") == "MethodCall" and e["name"] in ("unwrap_or", "unwrap_or_default") and peel(e["recv"]).get("k") == "MethodCall" and peel(e["recv"])["name"] == "map":
+                        clo = peel(peel(e["recv"])["args"][0])
+                        return clo.get("k") == "Closure" and is_ordering_test(clo["body"]["value"])
+                    if e.get("k") == "Block" and not e["stmts"] and "expr" in e:
+                        return is_ordering_test(e["expr"])
+                    if e.get("k") == "MethodCall" and e["name"] in ("is_lt", "is_gt", "is_le", "is_ge"):
+                        r = peel(e["recv"])
+                        while r.get("k") == "MethodCall" and r["name"] in ("then_with", "then"):
+                            r = peel(r["recv"])
+                        return r.get("k") in ("MethodCall", "Call") and (r.get("fn") or "").endswith("Ord::cmp")
+                    return False
+                if is_ordering_test(c):
                     strict = True
             # ties: types whose Ord is coarser than their Eq/Hash (reviewed facts about dependencies)
             NON_TOTAL = {"deno_semver::Version": "Ord ignores build metadata while Eq/Hash (HashMap keys) do not: 1.0.0+a and 1.0.0+b are distinct keys that compare Equal"}
